@@ -14,15 +14,15 @@ package boson
 //
 // (0 farthest, 255 closest, 256 self)
 func Proximity(one, other []byte) (ret uint8) {
-	b := MaxPO/8 + 1
-	if l := uint8(len(one)); b > l {
+	b := int(MaxPO/8 + 1)
+	if l := len(one); b > l {
 		b = l
 	}
-	if l := uint8(len(other)); b > l {
+	if l := len(other); b > l {
 		b = l
 	}
 	var m uint8 = 8
-	for i := uint8(0); i < b; i++ {
+	for i := uint8(0); int(i) < b; i++ {
 		oxo := one[i] ^ other[i]
 		for j := uint8(0); j < m; j++ {
 			if (oxo>>(7-j))&0x01 != 0 {
@@ -34,15 +34,15 @@ func Proximity(one, other []byte) (ret uint8) {
 }
 
 func ExtendedProximity(one, other []byte) (ret uint8) {
-	b := ExtendedPO/8 + 1
-	if l := uint8(len(one)); b > l {
+	b := int(ExtendedPO/8 + 1)
+	if l := len(one); b > l {
 		b = l
 	}
-	if l := uint8(len(other)); b > l {
+	if l := len(other); b > l {
 		b = l
 	}
 	var m uint8 = 8
-	for i := uint8(0); i < b; i++ {
+	for i := uint8(0); int(i) < b; i++ {
 		oxo := one[i] ^ other[i]
 		for j := uint8(0); j < m; j++ {
 			if (oxo>>(7-j))&0x01 != 0 {
